@@ -14,6 +14,7 @@ def run(facts, tier):
         ("bookkeeping", F.bookkeeping, 5, "update order; merge adds offsets and the total computed before the replay; emptiness considers total weight"),
         ("probe displacement", F.probe_displacement, 1, "hash_delete measures displacement with a wrapping step counter"),
         ("couplings", lambda fa: cowrite.obligations(fa, ['frequent_items_sketch', 'reverse_purge_hash_map']), 8, "fields that every mutator updates together (counters, extremes, cached values) are still updated together"),
+        ("tautologies", lambda fa: generic_lints.tautologies(fa, ('fi/',)), 2, "no comparison / assignment / min-max with two identical operands, no if-else with identical arms"),
         ("duplicate operands", lambda fa: generic_lints.duplicate_conjuncts(fa, ('fi/',)), 2, "no logical chain tests the same operand twice (copy-paste of the wrong peer)"),
         ("overload twins", lambda fa: twins.overload_twins(fa, ('fi/',)), 1, "const& and && overloads of one operation have identical bodies modulo std::move/forward"),
         ("structural triggers", lambda fa: triggers.obligations(fa, ['reverse_purge_hash_map']), 3, "the comparisons that decide when to resize / rebuild / compact / purge / promote keep their reviewed boundary (operator and constants)"),
